@@ -180,8 +180,13 @@ def run(chk):
         for b in range(per):
             base = textgen.Gen(rng, rec).text()
             p = rng.random()
-            if p < 0.7:
+            if p < 0.6:
                 sc.add(sid, {"d/main.conf": mutate_text(rng, base, rng.randint(1, 3))}, meta={"shape": "mutated-text"})
+            elif p < 0.72:
+                # a damaged text read while (valid) overrides are in force: the extended matchers see it too
+                ovs = [o for o in c14.gen_overrides(rng, rec, base, rng.randint(1, 2)) if c14.parse(o)]
+                sc.add(sid, {"d/main.conf": mutate_text(rng, base, rng.randint(1, 2))}, opts=ovs,
+                       meta={"shape": "mutated-text-with-overrides"})
             else:
                 ovs = c14.gen_overrides(rng, rec, base, rng.randint(1, 3))
                 if rng.random() < 0.5:
